@@ -691,21 +691,18 @@ def run_case(idx, rng, tier, rep):
     m = new_model(client, start)
     path = []
     # bias towards symbols that keep the walk alive: retry a few times when the model predicts a dead end
+    def keeps_going(cand):
+        if cand[1] == 'L':
+            return expect_local(m, cand[0], cand[2])[0] != 'refused'
+        if cand[1] == 'R':
+            return not all(a[0] == CERR for a in expect_recv(m, cand[0], cand[2]))
+        return True
+
     for _ in range(14):
-        sym = None
-        for _try in range(6):
-            cand = rng.choice(alphabet)
-            if cand[1] == 'L':
-                v, _f = expect_local(m, cand[0], cand[2])
-                if v == 'refused' and rng.random() < 0.8:
-                    continue
-            elif cand[1] == 'R':
-                al = expect_recv(m, cand[0], cand[2])
-                if all(a[0] == CERR for a in al) and rng.random() < 0.85:
-                    continue
-            sym = cand
-            break
-        if sym is None:
+        if rng.random() < 0.9:
+            live = [c for c in alphabet if keeps_going(c)]
+            sym = rng.choice(live or alphabet)
+        else:
             sym = rng.choice(alphabet)
         path = path + [sym]
         if not j.step(conn, m, sym, path, counter_prefix='random_walk_'):
